@@ -13,6 +13,7 @@ import (
 	"unsafe"
 
 	"github.com/elastos/Elastos.ELA/core/types/interfaces"
+	"github.com/elastos/Elastos.ELA/core/types/payload"
 	"github.com/elastos/Elastos.ELA/dpos/state"
 
 	"verif/kit"
@@ -63,18 +64,21 @@ type c40LGRec struct {
 }
 
 type c40LG struct {
-	c       *kit.Ctx
-	nd      *node.Node
-	getters []c40LGGetter
-	ver     atomic.Int64
-	mu      sync.Mutex
-	states  [][][]uint64     // state index -> getter -> sorted answer
-	spans   map[[3]int]int64 // (getter, lo, hi) -> number of answers judged over that span
-	calls   atomic.Int64
-	reorg   []bool // step i (state i -> i+1) was a branch switch
-	pend    []c40LGRec
-	viol    map[string]int
-	regs    []interfaces.Transaction
+	c        *kit.Ctx
+	nd       *node.Node
+	getters  []c40LGGetter
+	ver      atomic.Int64
+	mu       sync.Mutex
+	states   [][][]uint64     // state index -> getter -> sorted answer
+	spans    map[[3]int]int64 // (getter, lo, hi) -> number of answers judged over that span
+	calls    atomic.Int64
+	reorg    []bool     // step i (state i -> i+1) was a branch switch
+	special  []bool     // step i was a special payload handed in by the dpos-peer role
+	wmu      sync.Mutex // one writer step at a time (producer steps and dpos-peer steps), readers stay concurrent
+	specials []*payload.InactiveArbitrators
+	pend     []c40LGRec
+	viol     map[string]int
+	regs     []interfaces.Transaction
 }
 
 var c40Locked *c40LG
@@ -159,6 +163,21 @@ func c40PrepareLocked(c *kit.Ctx, nd *node.Node) {
 		}
 	}
 	c.Count("membership_registrations_prepared", int64(len(g.regs)))
+	// special payloads a DPoS peer hands in out of band (the dpos manager calls
+	// Arbiters.ProcessSpecialTxPayload after its own signature checks): emergency
+	// InactiveArbitrators naming the node key of a producer the membership role
+	// registers (unvoted, never an arbiter: the consensus itself is not disturbed),
+	// alternating with ones naming keys no producer uses (nothing to change)
+	sponsor := node.Pub(b.Nodes[0])
+	for i := 0; i < c.N(24, 48); i++ {
+		var named []byte
+		if i%2 == 0 {
+			named = node.Pub(node.Key(node.KeyProducerNode + 50 + (i/2)%n))
+		} else {
+			named = node.Pub(node.Key(600 + i%30))
+		}
+		g.specials = append(g.specials, &payload.InactiveArbitrators{Sponsor: sponsor, Arbitrators: [][]byte{named}, BlockHeight: nd.Height() + uint32(i)})
+	}
 	g.snapshot() // state 0
 	c40Locked = g
 	c40WriterStep = g.writerStep
@@ -192,10 +211,18 @@ func (g *c40LG) snapshot() {
 }
 
 // writerStep is called by the producer role (the only writer) around each step.
-func (g *c40LG) writerStep(begin, reorg bool) {
+func (g *c40LG) writerStep(begin, reorg bool) { g.step(begin, reorg, false) }
+
+// step brackets one writer step. The producer and the dpos-peer are both
+// writers of consensus state: wmu serialises their steps at the harness level,
+// so that there is still one writer at a time and the logical clock stays
+// meaningful; the readers (and every other role) run concurrently with either.
+func (g *c40LG) step(begin, reorg, special bool) {
 	if begin {
+		g.wmu.Lock()
 		g.mu.Lock()
 		g.reorg = append(g.reorg, reorg)
+		g.special = append(g.special, special)
 		g.mu.Unlock()
 		g.ver.Add(1) // odd: moving
 		return
@@ -203,6 +230,7 @@ func (g *c40LG) writerStep(begin, reorg bool) {
 	g.snapshot()
 	g.ver.Add(1) // even: stable in the state just recorded
 	g.c.Inc("locked_getter_writer_steps")
+	g.wmu.Unlock()
 }
 
 func c40LockedRoles(c *kit.Ctx, nd *node.Node, stop *int32, wg *sync.WaitGroup, guard func(role string, f func())) {
@@ -230,6 +258,48 @@ func c40LockedRoles(c *kit.Ctx, nd *node.Node, stop *int32, wg *sync.WaitGroup, 
 				c40Op("membership", "RegisterProducer")
 			})
 			next = nd.Height() + 2
+		}
+	})
+	// ---- dpos-peer: out-of-band special payloads while blocks are connected and readers run ----
+	c40Start("dpos-peer", func() {
+		next := nd.Height() + 10 // the first registrations of the membership role are active by then
+		for i, p := range g.specials {
+			for atomic.LoadInt32(stop) == 0 && nd.Height() < next {
+				time.Sleep(time.Millisecond) // pacing only
+			}
+			if atomic.LoadInt32(stop) != 0 {
+				return
+			}
+			guard("dpos-peer", func() {
+				var err error
+				func() {
+					g.step(true, false, true)
+					defer g.step(false, false, true) // (also when the node panics: the producer must not wait forever)
+					// Arbiters.ProcessSpecialTxPayload = AddInactivePayload (dedup) +
+					// State.ProcessSpecialTxPayload + ForceChange. The forced arbiter change
+					// demands a NextTurnDPOSInfo tx in the next block which the node only creates
+					// while it connects a block, and it resets the duty order under the kit's
+					// confirm signer: after one such call the DPoS v1 chains of the storm stop
+					// (observed, not this property). So only the LAST payload goes through the
+					// full entry; the others take the same path without the forced change.
+					if i == len(g.specials)-1 {
+						need := nd.Arbiters.IsNeedNextTurnDPOSInfo()
+						err = nd.Arbiters.ProcessSpecialTxPayload(p, nd.Height())
+						if !need && nd.Arbiters.IsNeedNextTurnDPOSInfo() {
+							nd.Arbiters.SetNeedNextTurnDPOSInfo(false)
+						}
+						c.Inc("special_payload_calls_through_Arbiters_entry_with_forced_change")
+					} else if nd.Arbiters.AddInactivePayload(p) {
+						nd.Arbiters.State.ProcessSpecialTxPayload(p, nd.Height())
+					}
+				}()
+				c.Inc("special_payload_calls")
+				if err != nil {
+					c.Inc("special_payload_calls_returning_an_error")
+				}
+				c40Op("dpos-peer", "InactiveArbitrators")
+			})
+			next = nd.Height() + 1 + uint32(i%2)
 		}
 	})
 	// ---- readers of the lock-protected getters ----
@@ -465,6 +535,29 @@ func c40LockedFinish(c *kit.Ctx, nd *node.Node) {
 			c.Count("locked_getter_calls_overlapping_a_membership_change:"+g.getters[gi].name, n)
 			if viaReorg {
 				c.Count("locked_getter_calls_overlapping_a_branch_switch_with_membership_change", n)
+			}
+		}
+	}
+	// special payload steps: which changed the state, which were overlapped by reader calls
+	overlapped := map[int]bool{}
+	for k := range g.spans {
+		for i := k[1]; i < k[2] && i < len(g.special); i++ {
+			if g.special[i] {
+				overlapped[i] = true
+			}
+		}
+	}
+	for i, sp := range g.special {
+		if !sp || i+1 >= nStates {
+			continue
+		}
+		if overlapped[i] {
+			c.Inc("special_payload_calls_overlapping_reader_calls")
+		}
+		for gi := range g.getters {
+			if !c40Same(g.states[i][gi], g.states[i+1][gi]) {
+				c.Inc("special_payloads_accepted")
+				break
 			}
 		}
 	}
